@@ -924,7 +924,10 @@ def config_sweep_requests(seed, n):
     dense = [{"id": "dense.h", "header": os.path.join(data, "dense.h"), "flags": ["--", "-x", "c", "-std=c11"]},
              {"id": "dense.hpp", "header": os.path.join(data, "dense.hpp"), "flags": ["--", "-x", "c++", "-std=c++17"]},
              {"id": "dense.hpp", "header": os.path.join(data, "dense.hpp"),
-              "flags": ["--enable-cxx-namespaces", "--", "-x", "c++", "-std=c++17"]}]
+              "flags": ["--enable-cxx-namespaces", "--", "-x", "c++", "-std=c++17"]},
+             {"id": "dense.m", "header": os.path.join(data, "dense.m"), "flags": ["--", "-x", "objective-c", "-fblocks"]},
+             {"id": "dense.m", "header": os.path.join(data, "dense.m"),
+              "flags": ["--objc-extern-crate", "--", "-x", "objective-c", "-fblocks"]}]
     for dj in dense:
         dj["flags"] = ["--formatter=none"] + dj["flags"]
     reqs = []
